@@ -562,6 +562,9 @@ class PenlogReader:
 
     def _parse_file_structure(self) -> None:
         old_offset = self.file_mmap.tell()
+        # The offset table describes the whole file, no matter how much
+        # of it has been consumed already.
+        self.file_mmap.seek(0)
 
         while True:
             self._record_offsets.append(self.file_mmap.tell())
